@@ -10,6 +10,7 @@ trailing byte - each candidate is parsed through the library's own dispatch
 and must either be reported as a decode error or re-serialise to exactly the
 bytes that were parsed.
 """
+import copy
 import struct
 
 from .. import world as W
@@ -124,7 +125,12 @@ def corpus_case(item):
                            else None)
         SEAMS.current = "main"
         o = pair.handshake(cg, sg)
-        if o["C"].status != "ok":
+        if o["C"].status != "ok" or o["S"].status != "ok":
+            # an honest handshake that fails means a message did not survive
+            # its own serialisation (or the harness is broken): never drop
+            # it silently
+            out.append((sc.name, "FAILED", sc.version, sc.suite, 0,
+                        repr((o["C"].sig(), o["S"].sig())).encode()))
             continue
         finlen = 48 if (sc.version >= (3, 4) and sc.suite in (
             0x1302,)) else 32
@@ -255,7 +261,81 @@ def ext_case(item):
                           "body": body[:24].hex(),
                           "why": "extension seen in a live handshake does "
                           "not round-trip: %r" % (r,)})
+    # histories: an object that already parsed and serialised one value is
+    # given another value through its public attributes; it must then
+    # serialise like a fresh object given that value (differential oracle:
+    # state reached from elsewhere vs from the initial state)
+    good = []
+    for (label, _k), body in sorted(cands.items(), key=repr):
+        if judge_parse(fn, enc(body))[0] == "roundtrip" and body not in good:
+            good.append(body)
+    good = good[:10 if tier == "quick" else 24]
+    for a in good:
+        for b in good:
+            if a == b:
+                continue
+            r = history_check(fn, enc(a), enc(b))
+            if r is None:
+                continue
+            n += 1
+            sigs.add((ctx, etype, "history", r[0]))
+            if r[0] == "FAIL" and len(fails) < 10:
+                fails.append({"ctx": ctx, "ext": etype, "case": "history",
+                              "body": b[:24].hex(), "first": a[:24].hex(),
+                              "why": r[1]})
     return n, fails, sorted(sigs, key=repr)
+
+
+def public_names(obj):
+    names = [k for k in vars(obj) if not k.startswith("_")]
+    fn_ = vars(obj).get("_field_name")
+    if fn_:
+        names.append(fn_)
+    for k in dir(type(obj)):
+        pr = getattr(type(obj), k, None)
+        if isinstance(pr, property) and pr.fset is not None and \
+                not k.startswith("_") and k not in names:
+            names.append(k)
+    return names
+
+
+def transfer(src, dst):
+    for k in public_names(src):
+        setattr(dst, k, copy.deepcopy(getattr(src, k)))
+
+
+def history_check(fn, enc_a, enc_b):
+    """None when the class' serialisation is not determined by its public
+    attributes (nothing to compare), else ('same',) / ('FAIL', text)."""
+    try:
+        obj_a = fn(enc_a)
+        obj_b = fn(enc_b)
+        if type(obj_a) is not type(obj_b):
+            return None
+        # both values must be reproduced by a fresh object given their
+        # public attributes (the generic TLSExtension keeps its payload
+        # private: nothing to compare there)
+        for (o, e) in ((obj_a, enc_a), (obj_b, enc_b)):
+            fresh = type(o)()
+            transfer(o, fresh)
+            if bytes(fresh.write()) != bytes(e):
+                return None
+    except BaseException:  # noqa
+        return None
+    first = bytes(obj_a.write())
+    transfer(obj_b, obj_a)
+    try:
+        again = bytes(obj_a.write())
+    except BaseException as e:  # noqa
+        return ("FAIL", "write() after assigning new values raised %s" %
+                type(e).__name__)
+    if again != bytes(enc_b):
+        return ("FAIL", "%s: after serialising one value and being assigned "
+                "another through its attributes, write() gives %s (a fresh "
+                "object with the same attributes gives the new value's "
+                "encoding)" % (type(obj_a).__name__, "the OLD encoding"
+                               if again == first else "something else"))
+    return ("same",)
 
 
 # ---------------------------------------------------------------- misc
@@ -510,7 +590,9 @@ def run(res, tier, seed):
         "stray byte in every length-delimited structure, trailing byte; "
         "every extension (type, body) seen in every context plus 22 generic "
         "bodies per (context, type): all truncations, +-1 on leading bytes, "
-        "trailing byte; record headers, alerts, CCS, heartbeat, session-"
+        "trailing byte; every ordered pair of accepted bodies of one type as "
+        "a parse-write-assign-write history against a fresh object; record "
+        "headers, alerts, CCS, heartbeat, session-"
         "ticket payloads; Writer and create() with values that do not fit; "
         "a candidate passes iff it is rejected with a decode/TLS error or "
         "re-serialises to exactly the parsed bytes")
@@ -523,6 +605,12 @@ def run(res, tier, seed):
     items = []
     ext_bodies = {}
     for (name, tok, version, suite, finlen, data) in corpus:
+        if tok == "FAILED":
+            res.violation({"part": "corpus", "scenario": name},
+                          {"scenario": name, "outcome": data.decode(),
+                           "fail": "honest handshake of the corpus failed"},
+                          {"corpus": name})
+            continue
         key = (tok, version, _kex(suite), len(data) // 16,
                name.split("-")[1] if "-" in name else name)
         if key in seen and tier == "quick":
@@ -568,8 +656,10 @@ def run(res, tier, seed):
             eitems.append((ctx, t, sorted(ext_bodies.get((ctx, t), set())),
                            tier))
     ne = 0
+    nh = 0
     for (n, fails, sigs) in pmap(ext_case, eitems):
         ne += n
+        nh += sum(1 for x in sigs if x[2] == "history")
         res.count(n)
         for s in sigs:
             res.outcome(("ext",) + tuple(s)[2:])
@@ -579,7 +669,8 @@ def run(res, tier, seed):
                            "case": f["case"].split("@")[0].split("[")[0],
                            "why": f["why"][:40]}, f, {"extension": f})
     res.section("extensions", context_type_pairs=len(eitems), candidates=ne,
-                real_bodies=sum(len(v) for v in ext_bodies.values()))
+                real_bodies=sum(len(v) for v in ext_bodies.values()),
+                context_type_pairs_with_history_comparisons=nh)
     nx = 0
     for (n, fails, sigs) in pmap(misc_case, [(k, tier) for k in (
             "RecordHeader3", "Alert", "ChangeCipherSpec", "Heartbeat",
